@@ -49,13 +49,34 @@ func DeepEqual(x, y Node) bool {
 		}
 		return xv == yv
 	case Kind_Int:
-		xv, err := x.AsInt()
-		if err != nil {
-			panic(err)
+		// Unsigned integers beyond the int64 range are held by UintNode
+		// implementations, whose AsInt reports an overflow error;
+		// compare those by their unsigned value.
+		xu, xIsUint := x.(UintNode)
+		yu, yIsUint := y.(UintNode)
+		if xIsUint && yIsUint {
+			xv, err := xu.AsUint()
+			if err != nil {
+				panic(err)
+			}
+			yv, err := yu.AsUint()
+			if err != nil {
+				panic(err)
+			}
+			return xv == yv
 		}
-		yv, err := y.AsInt()
-		if err != nil {
-			panic(err)
+		xv, xerr := x.AsInt()
+		yv, yerr := y.AsInt()
+		if (xerr != nil && xIsUint) != (yerr != nil && yIsUint) {
+			// Exactly one side is an unsigned value beyond the int64 range:
+			// it cannot equal a value within that range.
+			return false
+		}
+		if xerr != nil {
+			panic(xerr)
+		}
+		if yerr != nil {
+			panic(yerr)
 		}
 		return xv == yv
 	case Kind_Float:
